@@ -86,6 +86,15 @@ type linCtx struct {
 	nFresh int
 	ids    map[ssa.Value]string
 	bound  map[*ssa.Function]bool // functions whose parameters were bound to their callers already
+	inst   string                 // suffix of names local to one inlined helper call
+	root   *linCtx                // the context facts are collected in (nil: this one)
+}
+
+func (lc *linCtx) top() *linCtx {
+	if lc.root != nil {
+		return lc.root
+	}
+	return lc
 }
 
 func isIntType(t types.Type) bool {
@@ -151,7 +160,12 @@ func (lc *linCtx) id(v ssa.Value) string {
 		lc.ids = map[ssa.Value]string{}
 	}
 	lc.ids[v] = "?" // recursion guard
-	s := lc.id1(lc.strip(v))
+	var s string
+	if st := lc.strip(v); st != v {
+		s = lc.id(st)
+	} else {
+		s = lc.id1(v)
+	}
 	lc.ids[v] = s
 	return s
 }
@@ -177,7 +191,7 @@ func (lc *linCtx) id1(v ssa.Value) string {
 		} else if f, ok := v.(*ssa.FreeVar); ok {
 			fn = FuncName(f.Parent())
 		}
-		return fmt.Sprintf("%s.%s@%p", fn, v.Name(), v)
+		return fmt.Sprintf("%s.%s@%p%s", fn, v.Name(), v, lc.inst)
 	}
 	switch x := v.(type) {
 	case *ssa.Const:
@@ -275,6 +289,9 @@ func (lc *linCtx) of(v ssa.Value) linExpr {
 		if x.Op == token.SUB {
 			return set(lc.of(x.X).scale(-1))
 		}
+		if st := lc.strip(v); st != v {
+			return set(lc.of(st)) // read of a local variable that is assigned once
+		}
 	case *ssa.BinOp:
 		a, b := lc.of(x.X), lc.of(x.Y)
 		switch x.Op {
@@ -341,6 +358,35 @@ func (lc *linCtx) of(v ssa.Value) linExpr {
 			n := lc.of(x.Call.Args[0])
 			lc.facts = append(lc.facts, r, geq(n, r)) // 0 <= r <= n (documented contract)
 			return r
+		}
+		// an integer computed by a product helper with a single return statement: the returned expression, with the
+		// helper's parameters standing for this call's arguments
+		if callee := x.Call.StaticCallee(); callee != nil && P.IsProductFunc(callee) && len(callee.Blocks) > 0 && !P.isAnchor(callee) &&
+			isIntType(x.Type()) && lc.depth < 12 && len(callee.Params) == len(x.Call.Args) {
+			var ret *ssa.Return
+			n := 0
+			allInstrs(callee, func(b *ssa.BasicBlock, ins ssa.Instruction) {
+				if r, ok := ins.(*ssa.Return); ok {
+					ret = r
+					n++
+				}
+			})
+			if n == 1 && len(ret.Results) == 1 {
+				t := lc.top()
+				t.nFresh++
+				sub := &linCtx{c: lc.c, P: P, vars: map[ssa.Value]linExpr{}, ids: map[ssa.Value]string{}, trust: false, depth: lc.depth + 1,
+					inst: fmt.Sprintf("%s/call%d", lc.inst, t.nFresh), root: t, nFresh: t.nFresh * 1000}
+				for i, p := range callee.Params {
+					if isIntType(p.Type()) {
+						sub.vars[p] = lc.of(x.Call.Args[i])
+					}
+					sub.ids[p] = lc.id(x.Call.Args[i])
+				}
+				e := sub.of(ret.Results[0])
+				lc.facts = append(lc.facts, sub.facts...)
+				lc.disj = append(lc.disj, sub.disj...)
+				return set(e)
+			}
 		}
 	case *ssa.Parameter:
 		fn := x.Parent()
